@@ -29,8 +29,10 @@ def run(ctx):
     r84(ctx, ut)
     r85(ctx, api)
     c05.r56(ctx)
+    from . import c14
+    c14.r144(ctx, api, wr)
     from . import callsigs as _cs
-    _cs.general_rules(ctx, 'R8', ['writer.write', 'writer.write_multi', 'writer.partition_on_columns', 'writer.make_metadata', 'api.paths_to_cats', 'api._path_to_cats', 'core.read_row_group', 'api.filter_row_groups'])
+    _cs.general_rules(ctx, 'R8', ['writer.write', 'writer.write_multi', 'writer.partition_on_columns', 'writer.make_metadata', 'api.paths_to_cats', 'api._path_to_cats', 'core.read_row_group', 'api.filter_row_groups', 'api.ParquetFile.write_row_groups', 'api.ParquetFile.__init__'])
 
 
 def r81(ctx, wr):
